@@ -12,6 +12,11 @@ META = {
  "C07_vi_l1dot_nspin_factor": ("C07", "removes the nspin factor of the version-i l=1 dot features in eval_rho_vi_ and the matching one in eval_vxc_vi_ (derivatives stay consistent).", "nspin=2 and NLDF version i/ij settings with l1_feat_dots", "C07 (plan_closed_shell/i)", "missed at first (no plan-level link); caught after building C01-L2 and the plan-level closed-shell comparison"),
  "C15_isotropic_lengthscale_gradient": ("C15", "in DiffARBF/DiffAdditiveMixin eval_gradient the isotropic branch overwrites derivs[:,:,0] per feature instead of accumulating.", "scalar length_scale, free length_scale_bounds, >= 2 feature columns, order >= 1", "C15 (*_iso/theta_gradient)", "missed at first (all additive configurations were anisotropic); caught after adding the *_iso kernels"),
  "C09_sdmxgen_reuse_across_nspin": ("C09", "initialize_feature_generators compares the freshly rebuilt sl_plan.nspin instead of the cached sdmxgen.plan.nspin, so the SDMX generator is never rebuilt when only nspin changes.", "one numint object reused for nr_uks then nr_rks (or the reverse) on the same mol with SDMX features", "C09 (crosshair/_generators_follow_latest_request)", "missed at first (the harness stubbed initialize_feature_generators); caught after adding the CrossHair history conditions"),
+ "C20_padded_row_refactor": ("C20", "refactor of write_fft_input/read_fft_output into a helper that computes the padded in-place r2c row length as (n+2)*nt instead of 2*(n/2+1)*nt.", "r2c AND inplace AND odd last dimension", "C20", "caught at first run (element-wise DFT obligations and call_returns facts for dims (3), (2,3))"),
+ "C11_additive_map_bounds_index": ("C11", "get_mapped_gp_evaluator_additive takes the spline-grid bounds of mapped dimension i from feature i instead of feature inds[i].", "kernel acts on a non-leading subset of features with different bounds", "C11", "missed at first (spline-mapped evaluators were outside the check); caught after adding map_additive/* (grid-covers-feature-bounds facts + node-value identity with interpolation.splines replaced by recorders)"),
+ "C05_orb_to_rad_fused_loop": ("C05", "contract_orb_to_rad fuses the m and q loops when offset == 0 (correct guard would be stride == nalpha).", "offset 0 (or None) inside a wider p_uq array (stride > nalpha)", "C05", "missed at first (offset 0 was only exercised with stride == nalpha); caught after adding rad_orb/offset0_wide and angc_ylm/offset0_wide"),
+ "C06_from_tabs_stale_ylm_offset": ("C06", "AtomicGridsIndexer.from_tabs stores one ylm table per element but keeps the offset in a single variable updated only when a new element is first seen.", "two atoms of one element separated by an atom of another element with a different angular table", "C06 (relabel_indexer/*) and C19 (build/HHeH/*)", "missed at first (no indexer-level relabelling task); caught after adding C06 relabel_indexer/* and the C19 check with an A-B-A arrangement"),
+ "C02_exponent_spin_prefactor": ("C02", "get_cider_exponent factors pi*(nspin/2)^(2/3) out of the nspin branch so the tau term C wrongly picks up the spin factor.", "nspin=2 AND MGGA exponent AND tau_mul != 0", "C02", "caught at first run (exponent_doc/MGGA/nspin2)"),
 }
 for name, (prop, what, needs, by, note) in META.items():
     d = '/verif/seeded/%s' % name
